@@ -52,7 +52,7 @@ static void probe_prefix(int pre)
 #endif
         uint8_t d[2] = { 0x82, SDO_NODEID };
         w_rx(&Node, 0x000, 2, d);
-        for (int s = 0; s < CO_SSDO_N; s++) { sdo_adopt(sdo_dirty_obj[s]); sdo_dirty_obj[s] = -1; sm_reset(&SM[s]); }
+        for (int s = 0; s < CO_SSDO_N; s++) { sdo_adopt(sdo_dirty_obj[s]); sdo_dirty_obj[s] = -1; sm_reset(&SM[s]); sdo_srv_off[s] = 0; }
     }
     (void)CONodeGetErr(&Node);
     sdo_content_force = 1; sdo_content_reset(); sdo_content_force = 0;
@@ -80,6 +80,7 @@ static void probe_state(void)
     w_save(probe_snap);
     for (PSRV = 0; PSRV < CO_SSDO_N; PSRV++) for (int pre = 0; pre < (PSRV > 0 ? 3 : 2); pre++) for (int p = 0; p < NPROBE; p++) {
         w_restore(probe_snap); w_obs_clear();
+        if (sdo_srv_off[PSRV] && pre == 0) continue;      /* a server that is switched off has no client to recover for; the reset prefixes load its stored (enabled) COB-IDs */
         probe_prefix(pre);
         w_obs_clear();
         cl_trace = 0; cl_frames = 0; probe_runs++;
